@@ -193,12 +193,13 @@ def run_walk(repo, tier, seed, only=None):
         g = G.Gen(rng, tags=('force', 'del', 'merge'), p_tag=0.2, int_keys=True)
         text = G.render(g.map(3, top=True))
         if rng.random() < 0.4:
-            text = text[:-1] + (', ' if len(text) > 2 else '') + "c0: !call:builtins.dict {x: [1, {y: 2}]}, p0: !path [a, b], r0: !required}"
+            text = text[:-1] + (', ' if len(text) > 2 else '') + "c0: !call:builtins.dict {x: [1, {y: !required }], z: {w: 2}}, p0: !path [a, b], bd: !bind:builtins.dict {k: [0]}, r0: !required }"
         try:
             b = ay.Builder()
             b.add_source(text, raw_yaml=True)
             root = b.stages[0]
-        except Exception:
+        except Exception as e:
+            R.skip(text, e)
             continue
         R.case(text, {'doc': text})
         # reference enumeration straight from the child view
@@ -231,7 +232,138 @@ def register3(R):
                            stands_in_for='ComposedNode.nodes_with_paths (nested generator loops; its contract is ASSUMED by Config.check_missing and _require_all_new), get_node/_get_node, NodePath.split_path/join_path (regular expressions)'))
 
 
+# ------------------------------------------------------------------------------------------------ C11: plain data, re-evaluation, isolation
+def run_c11(repo, tier, seed, only=None):
+    """histories over one built config: walk it for leaked nodes, evaluate its kept source again, mutate the result and
+    evaluate the source once more.  Documents contain plain containers, references, call nodes returning containers and
+    multi-line !eval code that hands out containers of the partially evaluated config through `ayns.cfg` (single-name
+    code only: see the recorded C12 finding about the bytecode rewriter on this interpreter)."""
+    import copy
+    ay = load(repo)
+    from awesomeyaml.nodes.node import ConfigNode
+    from awesomeyaml.utils import Bunch
+    rng = random.Random(11000 + seed)
+    R = Runner('C11')
+
+    def leaks(x, path=()):
+        if isinstance(x, ConfigNode):
+            return path
+        if isinstance(x, dict):
+            for k, v in x.items():
+                r = leaks(k, path + ('<key>',)) or leaks(v, path + (k,))
+                if r:
+                    return r
+        elif isinstance(x, (list, tuple)):
+            for i, v in enumerate(x):
+                r = leaks(v, path + (i,))
+                if r:
+                    return r
+        return None
+
+    def mapping_kinds(node, x, path=()):
+        """every mapping NODE of the source evaluates to an attribute-accessible dict, every list node to a list (values
+        produced by user code - call / eval nodes - are whatever that code returns)"""
+        from awesomeyaml.nodes.dict import ConfigDict
+        from awesomeyaml.nodes.list import ConfigList
+        from awesomeyaml.nodes.function import FunctionNode
+        if type(node) is ConfigDict:
+            if not isinstance(x, Bunch) or list(x.keys()) != list(node.keys()):
+                return path
+            for k, v in x.items():
+                if isinstance(k, str) and k.isidentifier() and not k.startswith('_') and not hasattr(dict, k):
+                    if getattr(x, k) is not x[k]:
+                        return path + (k,)
+                r = mapping_kinds(node.ayns.get_child(k), v, path + (k,))
+                if r is not None:
+                    return r
+        elif type(node) is ConfigList:
+            if type(x) is not list or len(x) != len(node):
+                return path
+            for i, v in enumerate(x):
+                r = mapping_kinds(node.ayns.get_child(i), v, path + (i,))
+                if r is not None:
+                    return r
+        return None
+
+    def mutate(x, depth=0):
+        """in-place edits of every mutable container reachable from the evaluated config"""
+        if isinstance(x, dict):
+            for v in list(x.values()):
+                mutate(v, depth + 1)
+            if x and rng.random() < 0.5:
+                del x[next(iter(x))]
+            x['zz_added'] = [depth]
+        elif isinstance(x, list):
+            for v in list(x):
+                mutate(v, depth + 1)
+            x.append(99)
+            if len(x) > 1 and rng.random() < 0.5:
+                x[0] = -5
+
+    specials = ["!xref lst", "!xref mp", "!xref 'mp.in'", "!call:builtins.dict {x: [1, 2], y: {z: 3}}", "!call:builtins.list [[1, {q: 2}]]",
+                "!eval |\n    x = 1\n    ayns.cfg.lst", "!eval |\n    y = 2\n    ayns.cfg.mp", "!eval '[1, 2, 3]'", "f'v{1}'", "!eval 'dict(a=[1])'"]
+    for _ in range(n_cases(tier, 120, 2000)):
+        g = G.Gen(rng, tags=('force', 'weak', 'merge'), p_tag=0.15)
+        d = g.map(2, top=True)
+        lines = ['lst: [1, [2, 3], {k: 4}]', 'mp: {in: [5, 6], m2: {deep: [7]}}']
+        for k, v in d[1]:
+            if k not in ('lst', 'mp'):
+                lines.append(f'{k}: {G.render(v, False)}')
+        for i in range(rng.randint(1, 3)):
+            lines.append(f's{i}: {rng.choice(specials)}')
+        if rng.random() < 0.4:
+            lines.append('nest: {inner: ' + rng.choice(specials[:5]) + '}')
+        text = '\n'.join(lines) + '\n'
+        try:
+            cfg = ay.Config.build(text, raw_yaml=True)
+        except Exception as e:
+            R.skip(text, e)
+            continue
+        R.case(text, {'doc': text})
+        lk = leaks(cfg)
+        if lk is not None:
+            R.fail('bounded:C11.no-node-object-anywhere-in-the-built-config', f'doc={text!r}: node object at {list(lk)!r}', {'family': 'c11', 'docs': [text]})
+            continue
+        mk = mapping_kinds(cfg.ayns.source, cfg)
+        if mk is not None:
+            R.fail('bounded:C11.mapping-nodes-become-attribute-accessible-dicts-and-list-nodes-lists-of-the-same-shape', f'doc={text!r}: at {list(mk)!r}', {'family': 'c11', 'docs': [text]})
+        snap = copy.deepcopy(to_plain(cfg))
+        src_repr = repr(cfg.ayns.source)
+        try:
+            again = to_plain(ay.Config(cfg.ayns.source))
+        except Exception as e:
+            R.fail('bounded:C11.evaluating-the-kept-source-again-gives-an-equal-config', f'doc={text!r}: {type(e).__name__}: {e}'[:500], {'family': 'c11', 'docs': [text]})
+            continue
+        if again != snap:
+            R.fail('bounded:C11.evaluating-the-kept-source-again-gives-an-equal-config', f'doc={text!r}: first {snap!r}, again {again!r}'[:700], {'family': 'c11', 'docs': [text]})
+            continue
+        mutate(cfg)
+        if repr(cfg.ayns.source) != src_repr:
+            R.fail('bounded:C11.mutating-the-evaluated-config-never-changes-the-source', f'doc={text!r}: source tree changed', {'family': 'c11', 'docs': [text]})
+            continue
+        for rnd in range(2):
+            try:
+                third = ay.Config(cfg.ayns.source)
+            except Exception as e:
+                R.fail('bounded:C11.evaluating-the-source-after-mutating-the-result-gives-the-original-config', f'doc={text!r}: {type(e).__name__}: {e}'[:500], {'family': 'c11', 'docs': [text]})
+                break
+            if to_plain(third) != snap:
+                R.fail('bounded:C11.evaluating-the-source-after-mutating-the-result-gives-the-original-config',
+                       f'doc={text!r}: expected {snap!r}, got {to_plain(third)!r}'[:800], {'family': 'c11', 'docs': [text]})
+                break
+            mutate(third)
+    return R.result()
+
+
+def register4(R):
+    R.tasks.append(Bounded('bounded:C11-reevaluation-and-isolation', ('C11',), run_c11,
+                           'documents of depth<=3 with lists, mappings, references, call nodes and multi-line !eval handing out containers; per document: '
+                           'one build, one re-evaluation, one mutation of every reachable container, two further re-evaluations; quick 120 / thorough 2000 documents',
+                           stands_in_for='class-specific on_evaluate_impl of containers and dynamic nodes (ASSUMED to return any value), copy.deepcopy of the source tree, repeated use of one source'))
+
+
 def _reg_all(R):
     register(R)
     register2(R)
     register3(R)
+    register4(R)
